@@ -85,19 +85,49 @@ pub enum Tier {
 }
 
 pub struct GenCtx {
+    /// seed of this round (round 0: the run's seed; later rounds: derived from it)
     pub seed: u64,
     pub tier: Tier,
+    /// large (thorough) batches are generated and executed in rounds so that the plans of one
+    /// round fit in memory; every round has its own derived seed
+    pub round: u64,
+    n_called: std::cell::Cell<bool>,
+    more: std::cell::Cell<bool>,
 }
 
+/// most plans one family generates per round
+pub const ROUND_CAP: usize = 200_000;
+
 impl GenCtx {
-    /// n for quick, m for thorough
+    pub fn new(seed: u64, tier: Tier, round: u64) -> Self {
+        let seed = if round == 0 { seed } else { seed ^ round.wrapping_mul(0x9E37_79B9_7F4A_7C15) };
+        GenCtx { seed, tier, round, n_called: std::cell::Cell::new(false), more: std::cell::Cell::new(false) }
+    }
+    /// n for quick, m for thorough - the share of it that belongs to this round
     pub fn n(&self, quick: usize, thorough: usize) -> usize {
         let scale = std::env::var("VERIF_SCALE").ok().and_then(|s| s.parse::<f64>().ok()).unwrap_or(1.0);
         let v = match self.tier {
             Tier::Quick => quick,
             Tier::Thorough => thorough,
         };
-        ((v as f64 * scale) as usize).max(1)
+        let total = ((v as f64 * scale) as usize).max(1);
+        self.n_called.set(true);
+        let start = self.round as usize * ROUND_CAP;
+        if start >= total {
+            return 0;
+        }
+        let k = ROUND_CAP.min(total - start);
+        if start + k < total {
+            self.more.set(true);
+        }
+        k
+    }
+    /// parts of a batch that are enumerated rather than drawn belong to the first round only
+    pub fn first_round(&self) -> bool {
+        self.round == 0
+    }
+    fn wants_another_round(&self) -> bool {
+        self.n_called.get() && self.more.get()
     }
 }
 
@@ -489,7 +519,7 @@ pub struct Outcome {
 
 pub fn run_check(check: &Check, tier: Tier, seed: u64, threads: usize) -> Outcome {
     let t0 = Instant::now();
-    let ctx = GenCtx { seed, tier };
+
     let known = load_known();
     println!("VERIF_SEED={seed} property={} tier={:?} threads={threads}", check.property, tier);
     start_watchdog(check.property, 120);
@@ -508,13 +538,26 @@ pub fn run_check(check: &Check, tier: Tier, seed: u64, threads: usize) -> Outcom
             }
         }
         let tf = Instant::now();
-        let plans = (fam.gen)(&ctx);
-        let rec = run_family(fam, &plans, threads);
+        let mut rec = Rec::default();
+        let mut nplans = 0usize;
+        let mut round = 0u64;
+        loop {
+            let ctx = GenCtx::new(seed, tier, round);
+            let plans = (fam.gen)(&ctx);
+            nplans += plans.len();
+            let r = run_family(fam, &plans, threads);
+            rec.merge(r);
+            if !ctx.wants_another_round() || rec.violations.len() > 50_000 {
+                break;
+            }
+            round += 1;
+        }
+        let plans_len = nplans;
         let secs = tf.elapsed().as_secs_f64();
         println!(
             "  family {:<28} plans={:<7} evals={:<9} distinct={:<8} violations={} ({:.1}s)",
             fam.name,
-            plans.len(),
+            plans_len,
             rec.evals,
             rec.hashes.len(),
             rec.violations.len(),
@@ -522,7 +565,7 @@ pub fn run_check(check: &Check, tier: Tier, seed: u64, threads: usize) -> Outcom
         );
         per_family.insert(
             fam.name.to_string(),
-            json!({"plans": plans.len(), "evaluations": rec.evals, "distinct_nontrivial": rec.hashes.len(), "wall_s": (secs * 100.0).round() / 100.0}),
+            json!({"plans": plans_len, "rounds": round + 1, "evaluations": rec.evals, "distinct_nontrivial": rec.hashes.len(), "wall_s": (secs * 100.0).round() / 100.0}),
         );
         // triage violations in plan order
         for v in &rec.violations {
